@@ -511,6 +511,10 @@ def run_c15(chk: Check) -> int:
         f.write(f"SPECIFICATION Spec\nCONSTANTS\n Fixed = TRUE\n MaxLen = {7 if quick else 8}\nPROPERTY Progress\nINVARIANT Bounded\nCHECK_DEADLOCK FALSE\n")
     chk.model("p1", "MC_P1Parse", path, workers=16, coverage=True, timeout=900)
     parse_replay(chk, 6 if quick else 8)
+    chk.sensitivity("p1", "MC_P1Parse", "CONSTANTS\n Fixed = FALSE\n MaxLen = 7\n", "Progress", prop=True, what="F7a: parser without the missing-parenthesis test (pinned tree)")
+    chk.sensitivity("auto", "MC_AutoDecoder", 'CONSTANTS\n MaxCalls = 3\n Caught = {"Construct", "Value"}\n'
+                    ' Raised = {"Construct", "Value", "Arithmetic", "Lookup", "Type", "Attribute"}\n', "NothingEscapes",
+                    what="F7b: except clause catching ConstructError and ValueError only (pinned tree)")
     rng = chk.rng
     gen = genuine_pool()
     items = []
